@@ -695,40 +695,5 @@ func resetNodeAssignsLowerRounds(a *SimNode, fa *hg.Frame, b *SimNode, fb *hg.Fr
 		a, fa, b, fb = b, fb, a, fa
 	}
 	// b is the reset node
-	if fa == nil || fb == nil || len(fa.Events) != len(fb.Events) || fa.Round != fb.Round || fa.Timestamp != fb.Timestamp {
-		return false
-	}
-	lower := 0
-	cmp := func(x, y *hg.FrameEvent) bool {
-		if x.Core.Hex() != y.Core.Hex() || x.Core.Signature != y.Core.Signature || x.LamportTimestamp != y.LamportTimestamp {
-			return false
-		}
-		if x.Round != y.Round || x.Witness != y.Witness {
-			if y.Round >= x.Round {
-				return false
-			}
-			lower++
-		}
-		return true
-	}
-	for i := range fa.Events {
-		if !cmp(fa.Events[i], fb.Events[i]) {
-			return false
-		}
-	}
-	if len(fa.Roots) != len(fb.Roots) {
-		return false
-	}
-	for k, ra := range fa.Roots {
-		rb, ok := fb.Roots[k]
-		if !ok || len(ra.Events) != len(rb.Events) {
-			return false
-		}
-		for i := range ra.Events {
-			if !cmp(ra.Events[i], rb.Events[i]) {
-				return false
-			}
-		}
-	}
-	return lower > 0
+	return framesDifferOnlyByLowerRounds(fa, fb)
 }
